@@ -40,8 +40,8 @@ NEEDS = {
  "C17-B": ("C17", "abstraction.rs [u8]::tokenize_chars: end = start + c.len_utf8()", "bytes feature + invalid UTF-8 + char tokenizer"),
  "C18-A": ("C18", "text/utils.rs + mod.rs: pre-filter ratios computed in f64 and compared with f64::from(cutoff)", "cutoff hit exactly by a ratio whose f32 value rounds up, shorter string a subsequence of the longer"),
  "C18-B": ("C18", "text/mod.rs get_close_matches: bounded min-heap replaces the worst entry only if score > worst", "more than n qualifying candidates, a tie at the n-th place, the lexicographically smaller one later in the list"),
- "C19-A": ("C19", "see README.md", "see README.md"),
- "C19-B": ("C19", "see README.md", "see README.md"),
+ "C19-A": ("C19", "utils.rs common_suffix_len: 'suffix starts behind the last differing pair' via (0..len).filter(..).last() scans the whole aligned tail on every call (same result, ~N*D^2/6 work)", "a few dozen edits or more, or unrelated inputs; only comparison counting shows it (diffs are unchanged)"),
+ "C19-B": ("C19", "patience.rs: the diff of the two unique-item lists calls lcs::diff_deadline instead of myers::diff_deadline (quadratic table over the unique items)", "many unique items between the first and last changed unique line"),
  "C20-A": ("C20", "abstraction.rs [u8]::tokenize_words uses is_ascii_whitespace", "word diffs on byte input with non-ASCII or VT whitespace next to an edit"),
  "C20-B": ("C20", "utils.rs unique(): occurrence map keyed by the item's 64-bit hash", "Patience + an item type whose legal Hash implementation collides"),
  "revert-D1": ("C01", "reverse of fix 813e92c (lcs identical-ranges shortcut ignores range starts)", "Lcs on identical sub-ranges with non-zero starts"),
